@@ -192,6 +192,27 @@ def run(prog, rep, tier):
     if obs:
         rep.info("environment failures unwrapped (unreadable-file scenario, outside the property's arbitrary-content quantifier): %s" % sorted(set(obs))[:6])
 
+    # ------------------------------------------------------------ R7.17 path expansion reports a file it cannot open; it does not unwrap
+    # process_path and its helpers run on the main thread for every argument before a single message is
+    # printed.  A panic there (release: abort) takes the whole invocation down: an unreadable `.tar` beneath
+    # a directory made `s4 dir` print nothing at all (exit 134; defect F56).  No `unwrap`/`expect` on the
+    # result of opening a file in anything reachable from process_path.
+    R717 = rep.rule("R7.17", "path expansion never unwraps the result of opening a file")
+    n717 = 0
+    pp_reach = prog.reachable_fns(["s4lib::readers::filepreprocessor::process_path"])
+    for p_ in sorted(pp_reach):
+        eb_ = prog.body(p_, required=False)
+        if eb_ is None or not p_.startswith("s4lib::"):
+            continue
+        n717 += 1
+        for c in eb_.live_calls():
+            if c.d.split("::")[-1] in ("unwrap", "expect") and "Result" in c.d and "std::fs::File" in (c.callee.get("self") or c.f) and "std::io::Error" in (c.callee.get("self") or c.f):
+                rep.violation(R717, "%s|open-unwrapped" % p_, "%s (line %d) unwraps the result of opening a file while the arguments are being expanded; a file that cannot be opened (permissions, removed since it was listed) "
+                              "aborts the run before anything is printed - every other source loses its output" % (p_.split("::")[-1], c.line))
+    rep.examined(R717, "process_path|reach", sample={"functions_reachable_from_process_path": n717})
+    if n717 < 3:
+        raise CheckerError("R7.17: process_path reaches only %d library functions" % n717)
+
     # ------------------------------------------------------------ R7.10 allocations are sized by the block size, never by a size the file declares
     # Sizes stored in archive/compression headers are input (a tar header may claim 2^62 bytes).  Every
     # buffer the readers allocate in the worker threads is sized by the block size (blocksz, or
